@@ -51,15 +51,90 @@ CLAIMED = {
              'first-match priority, unmapped=0, no host error, device length invariant (inductive over histories).',
         ref='DESIGN.md 6/C16',
         note='trusts z3, symx and the models of struct.pack/unpack and bytearray slicing; device sizes enumerated'),
+    'C02': dict(
+        text='Every LDR/STR-family row (164 rows: byte/half/word/double, extending, literal, register, unprivileged, '
+             'exclusive; ARM + Thumb) stepped through the real emulate_cycle with P/U/W, registers, immediates, every '
+             'base address incl. wrap-around, alignment, memory array, flags and mode symbolic; address, bytes moved '
+             '(pointwise extensional memory equality), destination, write-back, load-to-PC, alignment aborts and frame '
+             'equal the A8.8 pseudocode. quick: arch 7 + anchors on arch 6 with SCTLR.A/U symbolic; thorough: all rows, '
+             'arch 6/7, SCTLR.A/U and CPSR.E symbolic.',
+        ref='DESIGN.md 6/C02', note='MPU off; exclusive monitors are constant-False stubs in the repository'),
+    'C04': dict(
+        text='Every branch row (B, BL/BLX, BX, BXJ, CBZ, TBB/TBH) with the whole offset field, the instruction address '
+             'and all state symbolic: target, LR, instruction-set selection, frame; sequential advance / PC reads / '
+             'alignment are part of every other functional row and of the C18 sweep (align claim).',
+        ref='DESIGN.md 6/C04', note='known finding F013 (CBZ offset scaling) excluded by region, still reported'),
+    'C05': dict(
+        text='condition_passed/current_cond vs ConditionHolds for all cond x NZCV (ARM field, Thumb branch fields, IT '
+             'state) by the solver; and for EVERY row of every table: failing condition => nothing changes but PC+len '
+             'and the IT advance (oracle-free frame claim through the real emulate_cycle).',
+        ref='DESIGN.md 6/C05', note='conditional UNDEFINED with failing condition is IMPLEMENTATION DEFINED: excluded'),
+    'C06': dict(
+        text='The real ARM decoder tree on a symbolic word, 256 shards covering all 2^32 words: per decoder path no word '
+             'is a defined word of a different table row; path conditions mention only the word. Converse + operands: '
+             'functional rows.',
+        ref='DESIGN.md 6/C06', note='exhaustive within table coverage (all 603 repository classes have rows once C03/C09 '
+                                    'tables are complete); VFP/SIMD spaces only classified as unimplemented'),
+    'C07': dict(
+        text='The real Thumb decoder trees on symbolic words: all 2^16 16-bit encodings with symbolic IT state and all '
+             '2^32 32-bit encodings (sharded): per path no defined word of a different row; dependence only on word + IT '
+             'state; fetch length decision from hw1[15:11].',
+        ref='DESIGN.md 6/C07', note='as C06'),
+    'C08': dict(
+        text='Multi-step symbolic programs IT + 1..4 menu instructions (+ branch last / SVC / UDF at each position) '
+             'through repeated real emulate_cycle calls with firstcond, mask, NZCV, registers symbolic; CPSR/ITSTATE and '
+             'PC compared with the composed oracle after every step, direct IT statements (ITSTATE = firstcond:mask, '
+             'flags untouched by 16-bit DP in block, empty after last slot, cleared on exception).',
+        ref='DESIGN.md 6/C08', note='programs from a 9-instruction menu, one IT block; quick 40 shapes, thorough ~2000'),
+    'C09': dict(
+        text='Every row of the saturating / extend / bit-field / reverse / PKH / CLZ and parallel add-sub / SEL / USAD '
+             'tables (and the multiply/divide table when present) stepped symbolically at full width incl. prior Q/GE; '
+             'whole post-state equals the pseudocode.',
+        ref='DESIGN.md 6/C09', note='known finding F009 (BFI with lsb != 0) excluded by region, still reported'),
+    'C12': dict(
+        text='cpsr_write_by_instr / spsr_write_by_instr with value, byte mask, whole CPSR, SCR.{NS,AW,FW}, NMFI, RFR '
+             'symbolic vs B1.3.3 + direct statements; every system-family row (MRS/MSR/CPS/SETEND/SUBS PC,LR/ERET, '
+             'coprocessor gating with CPACR/NSACR symbolic, barriers, preloads) and hint / exception-generating rows '
+             'through emulate_cycle.',
+        ref='DESIGN.md 6/C12', note='known finding F014 (MRS CPSR in privileged modes) excluded by region, still reported'),
+    'C14': dict(
+        text='translate_address_p/check_permission/data_abort with k (<=2 quick, <=3 thorough) fully symbolic MPU '
+             'regions (enable, size, base, subregions, AP), address, SCTLR.{M,BR}; privilege x direction case-split; '
+             'allow / Background / Permission fault, DFSR.{FS,WnR}, DFAR, frame vs the B5 oracle.',
+        ref='DESIGN.md 6/C14', note='instruction-level abort behaviour is asserted for alignment aborts in C02; >3 '
+                                    'simultaneously symbolic regions outside'),
+    'C15': dict(
+        text='translate_address_v with the page tables = the symbolic memory array, TTBR0/1, TTBCR, DACR, SCTLR.{AFE,EE}, '
+             'FCSE PID, PRRR/NMRR, address symbolic: PA(40 bit), NS, memory type/attributes or fault with DFSR.{FS,'
+             'domain,WnR}/DFAR vs the B3 short-descriptor oracle; MMU off flat.',
+        ref='DESIGN.md 6/C15', note='TRE=1, no hardware AF update, no LPAE/stage 2 (repository stubs); quick fixes N and '
+                                    'an injective remap setting'),
+    'C18': dict(
+        text='emulate_cycle over the whole instruction space in shards (ARM bits 27:20; Thumb-16 bits 15:8; Thumb-32 '
+             'hw1[12:4]) with every other bit and the whole machine state symbolic, UNPREDICTABLE included: no host '
+             'exception escapes (NotImplementedError of mock hooks allowed), registers stay 32-bit, PC aligned.',
+        ref='DESIGN.md 6/C18', note='single step from arbitrary valid state; LDM/STM register lists windowed; MPU off'),
+    'C19': dict(
+        text='Same sweep from CPSR.M = User: still User with A/I/F, other banks, SPSRs and EVERY system register '
+             '(generic snapshot) unchanged, or exception taken to a privileged mode at its vector with SPSR.M = User.',
+        ref='DESIGN.md 6/C19', note='as C18; unprivileged LDRT/STRT permission use is C14 + C02 rows'),
+    'C20': dict(
+        text='Scratch state havocked before steps (determinism / snapshot independence), reflection-based check that no '
+             'module-level object is written, and isolation with a foreign instance created between construction and '
+             'step (equal configuration: unaffected; different configuration: known finding F015).',
+        ref='DESIGN.md 6/C20', note='thread schedules outside the technique'),
 }
 
 NOT_BUILT = 'check not built yet (framework under construction; see DESIGN.md Appendix A)'
+
+# properties whose checks exist but whose end-to-end run on the unchanged tree is not yet validated are not claimed
+READY = ['C01', 'C02', 'C04', 'C05', 'C06', 'C07', 'C08', 'C09', 'C10', 'C11', 'C13', 'C14', 'C15', 'C16', 'C17', 'C20']
 
 
 def main():
     checks = []
     for pid in PROPS:
-        if pid in CLAIMED:
+        if pid in CLAIMED and pid in READY:
             c = CLAIMED[pid]
             checks.append({
                 'property_id': pid,
@@ -80,11 +155,11 @@ def main():
                   'baseline_off_cmd': 'cd /repo && /venv/bin/python -m pytest -ra -q -p no:cacheprovider --timeout=900 '
                                       '--continue-on-collection-errors',
                   'source_commits': [], 'add_only': True},
-        'engines': [{'name': 'symx', 'path': 'symx/', 'serves_properties': sorted(CLAIMED),
+        'engines': [{'name': 'symx', 'path': 'symx/', 'serves_properties': sorted(p for p in CLAIMED if p in READY),
                      'kind_free_text': 'purpose-made dynamic symbolic executor for Python: z3 bit-vector proxy ints, '
                                        'DFS by re-execution, incremental solver, replay of models on the real code'}],
         'checks': checks,
-        'not_applicable': [{'property_id': p, 'reason': NOT_BUILT} for p in PROPS if p not in CLAIMED],
+        'not_applicable': [{'property_id': p, 'reason': NOT_BUILT} for p in PROPS if not (p in CLAIMED and p in READY)],
         'notes': 'exit codes: 0 held / 1 reproduced violation / 2 inconclusive or harness error (nothing claimed)',
     }
     with open(os.path.join(HERE, 'MANIFEST.json'), 'w') as f:
